@@ -27,6 +27,8 @@
 #include <stdlib.h>
 #include <stdio.h>
 #include <stdbool.h>
+#include <fcntl.h>
+#include <unistd.h>
 #include <zck.h>
 
 #include "util_common.h"
@@ -34,4 +36,17 @@
 void version() {
     printf(ZCK_NAME " " ZCK_VERSION "\nCopyright (c) " ZCK_COPYRIGHT_YEAR
            " Jonathan Dieter\n");
+}
+
+/* If the caller closed any of the standard descriptors, the files a tool opens
+ * would be given their numbers, and diagnostics written to descriptor 2 would
+ * land in the middle of the tool's output.  Point them at the null device */
+void open_std_fds() {
+#ifndef _WIN32
+    int fd = open("/dev/null", O_RDWR);
+    while(fd >= 0 && fd <= STDERR_FILENO)
+        fd = open("/dev/null", O_RDWR);
+    if(fd > STDERR_FILENO)
+        close(fd);
+#endif
 }
